@@ -1,0 +1,42 @@
+//go:build verif
+
+package phase2
+
+import (
+	"math"
+
+	"github.com/nulab/autog/internal/graph"
+)
+
+// VerifCapped runs the pivot loop of execNetworkSimplex on g (statement for statement, plus a counter) and
+// reports whether it stopped on the iteration budget while a tree edge with negative cut value remained.
+func VerifCapped(g *graph.DGraph, params graph.Params) (capped bool, iterations int) {
+	if len(g.Nodes) < 2 {
+		return false, 0
+	}
+	p := &networkSimplexProcessor{
+		lim: make(graph.NodeIntMap),
+		low: make(graph.NodeIntMap),
+	}
+	p.feasibleTree(g)
+	k1 := int(math.Sqrt(float64(len(g.Nodes))))
+	if params.NetworkSimplexMaxIterFactor > 0 {
+		k1 = params.NetworkSimplexMaxIterFactor
+	}
+	maxitr := int(params.NetworkSimplexThoroughness) * k1
+	e := negCutValueTreeEdge(g.Edges)
+	i := 0
+	for e != nil {
+		if i >= maxitr {
+			return true, i
+		}
+		f := p.minSlackNonTreeEdge(g.Edges, e)
+		if f == nil {
+			return true, i
+		}
+		p.exchange(e, f, g)
+		e = negCutValueTreeEdge(g.Edges)
+		i++
+	}
+	return false, i
+}
